@@ -2,7 +2,17 @@
 exhaustively, with the code's known deviations as named constants that TLC refutes; send/verify
 plans simulated from the spec and seeded histories executed on the real vcode.VCLogic with a fake
 SMS gateway; alphabet samples of the codes and of idgen/random's generators; every recorded call
-validated by VCode_Trace against the property layer."""
+validated by VCode_Trace against the property layer.
+
+Hardening (audit classes): every Config field is a dimension incl. its extremes (CacheSize exactly
+the number of pairs / MaxInt64, CodeLen 0 / 33 / 100, MaxCount and MaxVerifyCount -1 / MinInt /
+MaxInt carried clamped, durations 0 / 1ns / 100ns / MinInt64 / MaxInt64); the gateway callback also
+fails (plain error, grpc status, one of vcode's own errors, panic; reply class "gw" with the
+statement's freedom about what such a send leaves behind); returned hashes and delivered codes are
+retained as handed over and, for half of the histories, rendered (and compared with a private copy,
+`stable`) only when the history is over; two logics on one Config value and one gateway are
+interleaved (twins); a panic is a reply of its own class, a call that does not return within the
+watchdog time is a `hang` reply - both rejected by the spec, never exit 2."""
 
 
 def _s(codes):
@@ -87,7 +97,13 @@ def run(ctx):
     ctx.assumptions += [
         "time enters only through regimes: TTL / MinInterval / CounterDuration are huge or non-positive "
         "(negative for the strict comparisons), so every comparison with the clock has one outcome",
-        "the LRU behind vcode (CacheSize 65536) never evicts during a trace",
+        "CacheSize is never below the number of distinct pairs of a history (tight fit, 65536 or "
+        "MaxInt64): the statement knows no eviction",
+        "a send whose gateway failed may leave nothing behind, or the new code in force with or without "
+        "being charged to the window (TLC searches the three continuations); it must not have been due "
+        "for refusal and must have handed over exactly one well-formed message",
+        "callers are sequential (the property quantifies over sequences; vcode documents no thread-safety), "
+        "separators inside area codes / phones are outside the generated domain",
         "alphabet coverage is statistical: a sample of >= 300*|alphabet| characters from a uniform "
         "generator misses a character with probability < 1e-100",
         "error kinds are not compared except verify.code.retry.limit, which may only be returned when the "
@@ -96,8 +112,10 @@ def run(ctx):
     return ctx.finish(
         rule="plans = TLC simulation of VCode.tla (3 pairs incl. two that concatenate alike, code length "
              "1..3, limits 0..3, all 16 regime combinations, mock and real); histories = seeded random over "
-             "2..6 pairs, code length 1..12, MaxCount 0..4, MaxVerify 0..5, right / stale / foreign / "
-             "malformed codes and hashes; guessing runs; a trace is one VCLogic lifetime; alphabet samples of "
+             "2..8 pairs (several families that concatenate alike), code length 0..100, MaxCount / MaxVerify "
+             "-1, 0..5, MinInt, MaxInt, tight / huge CacheSize, sub-microsecond and extreme durations, right / "
+             "stale / foreign / extended / malformed codes and hashes, failing gateway; guessing runs; twin "
+             "logics on one Config; a trace is one VCLogic lifetime; alphabet samples of "
              ">= 12000 code characters per code length and >= 300*|alphabet| per generator and alphabet",
         explanation="VCode.tla model-checked exhaustively (mechanism replies legal for the property layer; "
                     "the code's three deviations refuted); every reply recorded from vcode.VCLogic must be "
